@@ -295,6 +295,17 @@ def collidesWith (asset : Bytes) (e : Price) : Bool :=
 `asset ++ "band"` or `asset` unless it is an (asset, elys) / (asset, band) / (asset, _) entry. -/
 def noCollision (st : St) (asset : Bytes) : Bool := (allPrices st).all (fun e => !collidesWith asset e)
 
+/-- the same condition on the NAMES only: `asset` contains no "/" and no stored `asset' ++ source'`
+starts with `asset ++ "elys"`, `asset ++ "band"` or `asset` unless it is that very pair (resp. that
+asset). Sufficient for `noCollision` (`noCollision_of_names`), independent of the timestamps. -/
+def namesCollide (asset : Bytes) (e : Price) : Bool :=
+  (isPrefix (asset ++ ELYS) (e.asset ++ e.source) && !(decide (e.asset = asset) && decide (e.source = ELYS))) ||
+  (isPrefix (asset ++ BAND) (e.asset ++ e.source) && !(decide (e.asset = asset) && decide (e.source = BAND))) ||
+  (isPrefix asset (e.asset ++ e.source) && !decide (e.asset = asset))
+
+def namesNoCollision (st : St) (asset : Bytes) : Bool :=
+  !asset.contains 47 && (allPrices st).all (fun e => !namesCollide asset e)
+
 /-! ### histories -/
 
 /-- everything that can touch the oracle store. `setPrice` stands for the writers that bypass the
